@@ -1,5 +1,5 @@
 """C14  Results are independent of CPU-specific kernels, tuning tables and build options."""
-import os, ctypes, importlib, math
+import os, sys, ctypes, importlib, math
 from ctypes import c_void_p, c_long, c_ulong, c_int, c_uint64, addressof, Structure, c_char_p, byref
 from .. import lib, alphabet as al, mpnops as mo, rt, kernels as K, build
 from ..explore import Space
@@ -369,6 +369,33 @@ def spaces(tier, variant, seed):
             R.extra["fat_dispatch"] = 1
             return tuple(names)
         sp.append(Space("fat/dispatch", [0], f_cases, f_one, "the fat dispatcher's 31 choices after initialisation belong to the running CPU's vendor family"))
+
+        # the very FIRST dispatched call of a process goes through the slot's initialiser stub (fill the vector, then jump through "its
+        # own" slot): one fresh process per slot, the slot's function called first and again after initialisation with the same operands
+        from .. import fatfirst as FF
+
+        def ff_cases(blk):
+            yield (blk,)
+
+        def ff_one(case, R):
+            (slot,) = case
+            import subprocess as sp_, json as js_
+            root = os.path.dirname(os.path.dirname(os.path.dirname(os.path.abspath(__file__))))
+            env_ = dict(os.environ)
+            env_.pop("LD_PRELOAD", None)
+            r = sp_.run([sys.executable, "-m", "mc.fatfirst", lib.META["so"], slot], cwd=root, env=env_, capture_output=True, text=True, timeout=120)
+            if r.returncode != 0:
+                R.fail("fat first call", "slot %s: the fresh process exited with %s: %s" % (slot, r.returncode, (r.stderr or "")[-300:]))
+                return None
+            d = js_.loads(r.stdout.strip().splitlines()[-1])
+            if d["first"] != d["second"]:
+                R.fail("fat first call", "slot %s: the first dispatched call of a fresh process gives a different result from the same call after initialisation" % slot)
+            R.count("fat_first_call_processes", 1)
+            return (slot, d["first"] == d["second"])
+
+        sp.append(Space("fat/first_call_per_slot", list(FF.SLOTS), ff_cases, ff_one,
+                        "one fresh process per cpuvec slot (%d of 31; %s need a precomputed inverse and are reached through their callers): the slot's function is the first "
+                        "dispatched call (copyi/copyd on overlapping operands) and must agree with the same call repeated after initialisation" % (len(FF.SLOTS), ", ".join(FF.NOT_DRIVEN))))
     return sp
 
 
